@@ -1189,13 +1189,32 @@ def part_f(ctx, cov, dist, rng, only=None):
             cases.append(line(rng.choice([1, 1, 0]), rng.choice(users), rng.choice(users), rng.choice(cmds), busy, cs,
                               rng.choice([1, 1, 1, 0]), rng.choice([1, 1, 1, 0]), rng.choice(accs + ["1000"] * 6),
                               rng.choice(replies + ["00"] * 8)))
+        # the peer refuses with an error text: xrcmd copies it into a LINEBUFSIZE stack buffer up to the first newline.
+        # Texts that end before, on and behind the end of that buffer, LAST in the batch (an abort ends the batch)
+        m_ = re.search(r"def LINEBUFSIZE : Nat := (\d+)", open(os.path.join(os.path.dirname(HARNESS), "lean", "PdshVerif", "Gen",
+                                                                        "Dsh.lean")).read())
+        lbs = int(m_.group(1)) if m_ else 2048
+        for n_ in (lbs - 4, lbs - 3, lbs - 2, lbs - 1, lbs, lbs + 900):
+            cases.append(line(1, "root", "bob", "id", "-", "o", 1, 1, "1000", hx("\x01" + "e" * n_)))
+            cases.append(line(0, "root", "bob", "id", "-", "o", 1, 1, "1000", hx("\x01" + "e" * (n_ - 1) + "\n")))
     else:
         cases = list(only)
     (ans, crash), = run_batch([exe], [cases], env=SAN_ENV, timeout=600)
     if crash is not None:
         k = len(ans)
-        ctx.offender("crash", "xrcmd.c aborts (sanitizer report / fault) on `%s`: %s" % (cases[k][:200] if k < len(cases) else "?",
-                                                                                         crash[-500:]),
+        sig = "crash"
+        if k < len(cases):
+            rp = cases[k].split()[10]
+            rb = bytes.fromhex(rp) if rp not in ("-", "~") else b""
+            m_ = re.search(r"def LINEBUFSIZE : Nat := (\d+)", open(os.path.join(os.path.dirname(HARNESS), "lean", "PdshVerif",
+                                                                            "Gen", "Dsh.lean")).read())
+            lbs = int(m_.group(1)) if m_ else 2048
+            text = rb[1:].split(b"\n")[0] + (b"\n" if b"\n" in rb[1:] else b"")
+            if rb[:1] not in (b"", b"\0") and len(text) + (0 if text.endswith(b"\n") else 1) + 1 > lbs:
+                sig = "xr:error-reply-overflow"      # the known-finding class: decided from the INPUT alone
+        dist["offenders"][sig] = dist["offenders"].get(sig, 0) + 1
+        ctx.offender(sig, "xrcmd.c aborts (sanitizer report / fault) on `%s`: %s" % (cases[k][:120] if k < len(cases) else "?",
+                                                                                    crash[-700:]),
                      {"xr": cases[k] if k < len(cases) else None})
         cases = cases[:k]
     ml = ctx.model("rcmd", "".join(c + "\n" for c in cases), args=["model", "unchanged"]) if cases else []
